@@ -130,6 +130,24 @@ def r20_2(run):
                message='on the existing-name leg the new address is never stored: after "name A" then "name B", find(B) fails')
         run.ob('R20.2', up, t.ast, 'an update for a known name drops the old address key', bool(dl), slot='update-drops-old-address',
                message='on the existing-name leg the old address key is kept: find(A) still answers after the mapping moved to B')
+        # the mapping updated on this leg is the one stored under the *name* just tested (not the one under the address)
+        looks = [n for n in leg_only if n.kind == 'stmt' and isinstance(n.ast, ast.Assign) and isinstance(n.ast.value, ast.Subscript) and dotted(n.ast.value.value) == 'self.addr']
+        for n in looks:
+            run.ob('R20.2', up, n.ast, 'the known mapping is looked up under the name', src(n.ast.value.slice) == name_key, slot='lookup-by-name',
+                   message='on the existing-name leg the mapping is fetched with self.addr[%s]: for a name that moved to a new address this is a KeyError / another name\'s mapping'
+                           % src(n.ast.value.slice))
+        run.ob('R20.2', up, t.ast, 'the known mapping is fetched from the map', bool(looks), slot='lookup-present', message='no self.addr[...] lookup on the existing-name leg')
+        # only this mapping's other keys are dropped: the filter keeps (value is the mapping) and (key is not the name)
+        for n in dl:
+            for lp_ in [x for x in walk_unit(up) if isinstance(x, ast.For) and any(y is a for a in node_asts(n) for y in ast.walk(x))]:
+                comps = [c for c in ast.walk(lp_.iter) if isinstance(c, ast.comprehension)]
+                conds = [i_ for c in comps for i_ in c.ifs]
+                txt = ' '.join(src(i_) for i_ in conds)
+                mapvar = assigned_targets(looks[0].ast)[0] if looks else None
+                same = any(isinstance(x, ast.Compare) and isinstance(x.ops[0], ast.Is) and mapvar in (dotted(x.left), dotted(x.comparators[0])) for i_ in conds for x in ast.walk(i_))
+                notname = any(isinstance(x, ast.Compare) and isinstance(x.ops[0], ast.NotEq) and name_key in (src(x.left), src(x.comparators[0])) for i_ in conds for x in ast.walk(i_))
+                run.ob('R20.2', up, lp_, 'only this mapping\'s stale keys are dropped', (same and notname) if conds else None, slot='stale-key-filter',
+                       message='the stale-key removal filters on "%s": keys of other names\' mappings are deleted (or this mapping\'s name key is)' % txt[:80])
     # find() looks keys up as stored
     fd = M_(run, am, 'find')
     rets = [r for r in walk_unit(fd) if isinstance(r, ast.Return)]
@@ -327,6 +345,8 @@ RULES = [
 from ..selftest import M  # noqa: E402
 F = 'txtorcon/addrmap.py'
 MUTANTS = [
+    M('lookup-by-address', F, "            a = self.addr[params[0]]\n", "            a = self.addr[params[1]]\n", ['R20.2']),
+    M('stale-filter-inverted', F, "if v is a and k != params[0]]:", "if v is not a and k != params[0]]:", ['R20.2']),
     M('rekey-after-update', F, "            self.addr[params[1]] = a\n            a.update(*params)\n\n        else:", "            a.update(*params)\n            self.addr[params[1]] = a\n\n        else:", ['R20.5']),
     M('seconds-again', F, "self.expiry.delay(diff.total_seconds())", "self.expiry.delay(diff.seconds)", ['R20.1']),
     M('calllater-seconds', F, "callLater(diff.total_seconds(),", "callLater(diff.seconds,", ['R20.1']),
